@@ -26,7 +26,7 @@ class Handler(http.server.BaseHTTPRequestHandler):
                 if m:
                     a = int(m.group(1)); b = int(m.group(2)) if m.group(2) else len(data) - 1
                     ranges.append((a, min(b, len(data) - 1)))
-        if not ranges or (srv.max_ranges and len(ranges) > srv.max_ranges):
+        if not ranges or srv.no_ranges or (srv.max_ranges and len(ranges) > srv.max_ranges):
             self.send_response(200); self.send_header("Content-Length", str(len(data))); self.send_header("Connection", "close"); self.end_headers()
             self.wfile.write(data); return
         if len(ranges) == 1:
@@ -54,9 +54,10 @@ class Server(socketserver.ThreadingMixIn, http.server.HTTPServer):
     allow_reuse_address = True
 
 
-def start(root, max_ranges=0, boundary=b"zckdlBOUNDARY+1", piece=0):
+def start(root, max_ranges=0, boundary=b"zckdlBOUNDARY+1", piece=0, no_ranges=False):
+    """no_ranges: a server that ignores Range altogether (always 200 with the whole file)"""
     srv = Server(("127.0.0.1", 0), Handler)
-    srv.root = root; srv.max_ranges = max_ranges; srv.boundary = boundary; srv.piece = piece
+    srv.root = root; srv.max_ranges = max_ranges; srv.boundary = boundary; srv.piece = piece; srv.no_ranges = no_ranges
     srv.log = []; srv.lock = threading.Lock()
     t = threading.Thread(target=srv.serve_forever, daemon=True); t.start()
     return srv
